@@ -31,6 +31,24 @@ type c16Case struct {
 	Doc      int  `json:"doc"`
 	Endpoint int  `json:"endpoint"`
 	Sign     bool `json:"sign_authn_requests"` // BuildAuthBodyPost only
+	// Frags, when set, makes the relay state the concatenation of these fragments of
+	// c16Fragments instead of c16Relay[Relay]
+	Frags []int `json:"fragments,omitempty"`
+}
+
+// c16Fragments are the pieces an injection is assembled from; the thorough tier tries every
+// sequence of up to three of them.
+var c16Fragments = []string{`"`, `'`, "<", ">", "&", "=", "/", " ", "\n", "</form>", "<script>", "</script>", "<!--", "-->", "`", "\\", "{{", "}}", "&quot;", "&#34;", "&lt;", "é", "😀", "\x00", "\u2028", "onfocus", "x", "javascript:"}
+
+func (c c16Case) relay() string {
+	if len(c.Frags) == 0 {
+		return c16Relay[c.Relay]
+	}
+	var b strings.Builder
+	for _, f := range c.Frags {
+		b.WriteString(c16Fragments[f])
+	}
+	return b.String()
 }
 
 const c16ScriptReq = `document.getElementById('SAMLSubmitButton').style.visibility="hidden";document.getElementById('SAMLRequestForm').submit();`
@@ -45,7 +63,7 @@ func c16Exec(c c16Case) (keys []string, detail, class string) {
 		sp := world.SP()
 		_, _, _, page1, doc1 := c16BuildAndJudge(sp, c)
 		c2 := c
-		c2.Relay = (c.Relay + 7) % len(c16Relay)
+		c2.Relay, c2.Frags = (c.Relay+7)%len(c16Relay), nil
 		k2, d2, _ := c16ExecOn(sp, c2)
 		for _, k := range k2 {
 			keys = append(keys, strings.Replace(k, "C16/", "C16/second-call-on-same-instance/", 1))
@@ -84,7 +102,7 @@ func c16Build(sp *saml2.SAMLServiceProvider, c c16Case) (out []byte, docBytes []
 	sp.IdentityProviderSSOURL = c16Endpoints[c.Endpoint]
 	sp.IdentityProviderSLOURL = strings.Replace(c16Endpoints[c.Endpoint], "/sso", "/slo", 1)
 	sp.SignAuthnRequests = c.Sign
-	relay := c16Relay[c.Relay]
+	relay := c.relay()
 	b := c16Builders[c.Builder]
 	p = guard(func() {
 		var doc *etree.Document
@@ -128,7 +146,7 @@ func c16Build(sp *saml2.SAMLServiceProvider, c c16Case) (out []byte, docBytes []
 }
 
 func c16JudgePage(sp *saml2.SAMLServiceProvider, c c16Case, out, docBytes []byte, err error, p string) (keys []string, detail, class string) {
-	relay := c16Relay[c.Relay]
+	relay := c.relay()
 	b := c16Builders[c.Builder]
 	detail = fmt.Sprintf("builder=%s relay=%q doc=%s endpoint=%s sign=%v | err=%v panic=%q", b, relay, c16Docs[c.Doc], c16Endpoints[c.Endpoint], c.Sign, err, p)
 	kp := "C16/" + b + "/"
@@ -334,8 +352,8 @@ var c16Baselines sync.Map
 
 func c16BaselineSkeleton(c c16Case) (string, error) {
 	bc := c
-	if c16Relay[c.Relay] != "" {
-		bc.Relay = 1 // "plain"
+	if c.relay() != "" {
+		bc.Relay, bc.Frags = 1, nil // "plain"
 	}
 	key := fmt.Sprintf("%+v", bc)
 	if v, ok := c16Baselines.Load(key); ok {
@@ -368,7 +386,7 @@ func c16Replay(raw json.RawMessage) ([]string, string) {
 }
 
 func c16Run(r *mc.Run) {
-	r.Rule = "full product relay state(27: quotes, angle brackets, script and attribute-injection payloads, ampersands, character references, newline, U+2028, backtick, backslash, template syntax, plus, comment opener, NUL) x builder(4) x document(3: signed, unsigned, non-ASCII) x endpoint(2: plain, with & query) x SignAuthnRequests(2, BuildAuthBodyPost); oracle = a strict HTML tokenizer (anything needing browser error recovery is rejected) and a reading of the page as a browser would: exactly one form, action = the endpoint, method POST, exactly one message field inside it = base64 of exactly the document, a RelayState field iff non-empty decoding to exactly the value, no binding field anywhere else, a script that submits; and the token skeleton (every tag, attribute, attribute value, text and script except those three values) equal to the skeleton of the page the same builder makes for a plain relay state, so that nothing else can depend on the relay state or the document. non-trivial = a page was produced and tokenized; distinct = distinct case"
+	r.Rule = "full product relay state(27: quotes, angle brackets, script and attribute-injection payloads, ampersands, character references, newline, U+2028, backtick, backslash, template syntax, plus, comment opener, NUL) x builder(4) x document(3: signed, unsigned, non-ASCII) x endpoint(2: plain, with & query) x SignAuthnRequests(2, BuildAuthBodyPost), plus relay states assembled from every sequence of 2 (quick) / 2-3 (thorough) of 28 injection fragments x builder(4); oracle = a strict HTML tokenizer (anything needing browser error recovery is rejected) and a reading of the page as a browser would: exactly one form, action = the endpoint, method POST, exactly one message field inside it = base64 of exactly the document, a RelayState field iff non-empty decoding to exactly the value, no binding field anywhere else, a script that submits; and the token skeleton (every tag, attribute, attribute value, text and script except those three values) equal to the skeleton of the page the same builder makes for a plain relay state, so that nothing else can depend on the relay state or the document. non-trivial = a page was produced and tokenized; distinct = distinct case"
 	var cases []c16Case
 	mc.Enumerate(-1, r.Expired, func(ch *mc.Chooser) {
 		c := c16Case{}
@@ -382,6 +400,28 @@ func c16Run(r *mc.Run) {
 		}
 		cases = append(cases, c)
 	})
+	// relay states assembled from fragments: every sequence of <= 2 (quick) / <= 3 (thorough)
+	maxF := 2
+	if r.Thorough() {
+		maxF = 3
+	}
+	n0 := len(cases)
+	var rec func(prefix []int)
+	rec = func(prefix []int) {
+		if len(prefix) >= 2 {
+			for b := range c16Builders {
+				cases = append(cases, c16Case{Builder: b, Frags: append([]int(nil), prefix...), Doc: len(prefix) % len(c16Docs), Endpoint: len(prefix) % 2})
+			}
+		}
+		if len(prefix) == maxF {
+			return
+		}
+		for f := range c16Fragments {
+			rec(append(prefix, f))
+		}
+	}
+	rec(nil)
+	r.Set("fragment_sequences", (len(cases)-n0)/len(c16Builders))
 	r.State(len(cases))
 	r.Par(len(cases), func(i int) {
 		c := cases[i]
